@@ -496,6 +496,6 @@ func gen(r *rand.Rand, tier string, n int) []any {
 }
 
 func main() {
-	common.Main(common.Prop{ID: "C26", Facts: facts, Gen: gen, Run: run, QuickN: 500, ThoroughN: 6000,
+	common.Main(common.Prop{ID: "C26", Facts: facts, Gen: gen, Run: run, QuickN: 500, ThoroughN: 3000,
 		Preamble: "Open Scope Z_scope.\n"})
 }
